@@ -220,6 +220,45 @@ FIXED_LIST_CASES = [
 ]
 
 
+# a state for the systematic sweep of filter COMBINATIONS: two trees (1 > 4, 2 > 5), a lone provider 3; traits and
+# aggregates arranged so that intermediate results of the filter chain become empty while others are not
+SWEEP_STATE = [
+    ('rp_create', 39, 1, 1, None), ('inv_set', 39, 1, 0, [_inv(0, 8), _inv(1, 64)]), ('traits_set', 39, 1, 1, [T_AVX, T_SSD]),
+    ('aggs_set', 39, 1, 2, [1]),
+    ('rp_create', 39, 2, 2, None), ('inv_set', 39, 2, 0, [_inv(0, 8), _inv(2, 50)]), ('aggs_set', 39, 2, 1, [1, 2]),
+    ('rp_create', 39, 3, 3, None), ('inv_set', 39, 3, 0, [_inv(1, 64)]), ('traits_set', 39, 3, 1, [T_SSD]),
+    ('rp_create', 39, 4, 4, 1), ('inv_set', 39, 4, 0, [_inv(2, 100)]), ('traits_set', 39, 4, 1, [T_AVX]), ('aggs_set', 39, 4, 2, [2]),
+    ('rp_create', 39, 5, 5, 2), ('inv_set', 39, 5, 0, [_inv(0, 2)]), ('aggs_set', 39, 5, 1, [3]),
+]
+SWEEP_OPTIONS = [
+    ('name', [None, 1]),
+    ('uuid', [None, 1, 2]),
+    ('in_tree', [None, 1]),
+    ('member_of', [[], [[1]], [[1, 2]], [[1], [2]]]),
+    ('forbidden_aggs', [[], [2]]),
+    ('required', [[], [[T_AVX]], [[T_AVX, T_SSD]]]),
+    ('forbidden', [[], [T_SSD], [T_AVX]]),
+    ('resources', [[], [(0, 1)], [(1, 1), (0, 1), (2, 1)]]),
+]
+
+
+def sweep_queries(limit=None, seed=0):
+    """every combination of the options above (2 592 listings at 1.39); `limit`: a seeded sample that always contains the
+    combinations of exactly three active filters"""
+    import itertools
+    out = []
+    for combo in itertools.product(*[opts for _k, opts in SWEEP_OPTIONS]):
+        kw = {k: v for (k, _o), v in zip(SWEEP_OPTIONS, combo)}
+        active = sum(1 for v in combo if v not in (None, []))
+        out.append((active, _lq(**kw)))
+    if limit is not None and len(out) > limit:
+        keep = [q for a, q in out if a == 3]
+        rest = [q for a, q in out if a != 3]
+        random.Random(seed).shuffle(rest)
+        return keep + rest[:max(0, limit - len(keep))]
+    return [q for _a, q in out]
+
+
 def build_fixed(op_list):
     app = impl.App()
     done = []
@@ -686,6 +725,7 @@ def model_answer(b, q, workdir='/tmp', spec=False):
 
 
 LAST_STATS = {}
+SWEEP_LIMIT = 700          # listings of the systematic sweep per run (None: all 2 592, 0: none); set by checks_cand per tier
 
 
 def classify_spec_diff(q, obs):
@@ -730,6 +770,16 @@ def run(seed, n_states, n_queries, shard=20, workdir=None, verbose=True, keep=Fa
                 obs, r = ask(app, b, q)
                 if on_answer is not None:
                     on_answer(app, b, q, obs, r)
+                cases.append((q, obs))
+            app.close()
+            states.append((b, cases))
+    if p_cand < 1 and SWEEP_LIMIT != 0:
+        qs = sweep_queries(SWEEP_LIMIT, seed)
+        for k in range(0, len(qs), 120):
+            app, b = build_fixed(SWEEP_STATE)
+            cases = []
+            for q in qs[k:k + 120]:
+                obs, r = ask(app, b, q)
                 cases.append((q, obs))
             app.close()
             states.append((b, cases))
